@@ -126,6 +126,8 @@ pub struct AckInfo {
     pub close_begin: Option<i64>,
     pub done: Option<i64>,
     pub stop: Option<String>,
+    /// operation indices after which the driver copied the directory (`S i`)
+    pub snaps: Vec<usize>,
 }
 
 fn parse_outcome(s: &str) -> Option<Outcome> {
@@ -193,6 +195,11 @@ pub fn parse_acklog(path: &Path) -> AckInfo {
                     {
                         a.observes.insert(i, o);
                     }
+                }
+            }
+            "S" => {
+                if let Some(i) = it.next().and_then(|x| x.parse::<usize>().ok()) {
+                    a.snaps.push(i);
                 }
             }
             "CLOSE-BEGIN" => a.close_begin = it.next().and_then(|x| x.parse().ok()),
